@@ -116,19 +116,45 @@ def paths_to_ret(fn, mod, value):
             for inc in fn.imap[v["v"]]["incoming"]:
                 if inc["b"] == via: v = inc["v"]
         return v["k"] == "int" and int(v["v"]) == value
-    def dfs(b, via, atoms, seen):
+    def resolve(o, env, truth=True, d=0):
+        """a branch condition that is (a cast / != 0 test / negation of) a boolean phi whose value on this path is known: returns
+        ('const', bool) | ('cond', operand, truth) | None"""
+        if o["k"] == "int": return ("const", bool(int(o["v"])) == truth)
+        if o["k"] != "inst" or d > 8: return None
+        x = fn.imap[o["v"]]
+        if x.id in env:
+            v = env[x.id]
+            return resolve(v, env, truth, d + 1) or ("cond", v, truth)
+        if x.op in ("zext", "trunc", "sext", "freeze"): return resolve(x.ops[0], env, truth, d + 1)
+        if x.op == "xor" and x.ops[1]["k"] == "int" and int(x.ops[1]["v"]) & 1: return resolve(x.ops[0], env, not truth, d + 1)
+        if x.op == "icmp" and x.ops[1]["k"] == "int" and int(x.ops[1]["v"]) == 0 and x["pred"] in ("ne", "eq") and x.ops[0]["k"] == "inst":
+            inner = fn.imap[x.ops[0]["v"]]
+            if inner.op in ("zext", "phi", "trunc", "xor") or inner.id in env: return resolve(x.ops[0], env, truth if x["pred"] == "ne" else not truth, d + 1)
+        return None
+    def dfs(b, via, atoms, seen, env):
         if b.id in seen or len(out) > 500: return
+        if via is not None:
+            # values of this block's phis on the edge we came in by (a bool built with && / || is such a phi)
+            env = dict(env)
+            for i in b.insts:
+                if i.op != "phi": break
+                for inc in i["incoming"]:
+                    if inc["b"] == via: env[i.id] = inc["v"]
         if b.term.op == "ret":
             if ret_matches(b, via): out.append(list(atoms))
             return
         t = b.term
         if t.op == "br" and len(t.ops) == 3:
             for truth, tgt in ((True, t.ops[2]["v"]), (False, t.ops[1]["v"])):
-                a = cond_atom(fn, mod, t.ops[0], truth)
-                dfs(fn.bmap[tgt], b.id, atoms + ([a] if a else []), seen | {b.id})
+                r = resolve(t.ops[0], env, truth)
+                if r is not None and r[0] == "const":
+                    if not r[1]: continue                          # this edge cannot be taken on this path
+                    dfs(fn.bmap[tgt], b.id, atoms, seen | {b.id}, env); continue
+                a = cond_atom(fn, mod, r[1], r[2]) if r is not None else cond_atom(fn, mod, t.ops[0], truth)
+                dfs(fn.bmap[tgt], b.id, atoms + ([a] if a else []), seen | {b.id}, env)
         else:
-            for s in b.succs: dfs(s, b.id, atoms, seen | {b.id})
-    dfs(fn.entry, None, [], set())
+            for sx in b.succs: dfs(sx, b.id, atoms, seen | {b.id}, env)
+    dfs(fn.entry, None, [], set(), {})
     return out
 
 
